@@ -164,8 +164,98 @@ def run_units(worker, units, procs=None, init=None, initargs=()):
         if init:
             init(*initargs)
         return [worker(u) for u in units]
-    with mp.Pool(procs, initializer=init, initargs=initargs) as pool:
-        return pool.map(worker, units, chunksize=max(1, min(8, len(units) // (procs * 4) or 1)))
+    # A worker that dies (segfault in the solver library, out of memory) must not hang the run (multiprocessing.Pool.map would wait for ever):
+    # futures + BrokenProcessPool; unfinished units are retried in smaller chunks, and given up as inconclusive after three broken pools.
+    from concurrent.futures import ProcessPoolExecutor, as_completed
+    from concurrent.futures.process import BrokenProcessPool
+    results = [None] * len(units)
+    pending = list(range(len(units)))
+    chunk = max(1, min(8, len(units) // (procs * 4) or 1))
+    hard_cap = float(os.environ.get('VERIF_UNIT_STALL_S', '3600'))
+    while pending:
+        groups = [pending[i:i + chunk] for i in range(0, len(pending), chunk)]
+        ex = ProcessPoolExecutor(procs, mp_context=mp.get_context('fork'), initializer=init, initargs=initargs)
+        futs = {ex.submit(_run_chunk, worker, [units[i] for i in g]): g for g in groups}
+        broken = False
+        try:
+            for f in as_completed(futs, timeout=hard_cap):
+                g = futs[f]
+                try:
+                    for i, r in zip(g, f.result()):
+                        results[i] = r
+                except BrokenProcessPool:
+                    broken = True
+                    break
+        except Exception as x:         # includes the stall timeout
+            broken = True
+            sys.stderr.write('unit pool problem: %r\n' % (x,))
+        finally:
+            for p_ in list(getattr(ex, '_processes', {}).values()):
+                try:
+                    p_.kill()
+                except Exception:
+                    pass
+            ex.shutdown(wait=False, cancel_futures=True)
+        pending = [i for i in pending if results[i] is None]
+        if not broken:
+            continue
+        # a pool broke: run what is left one unit per process, so that a dying unit only loses itself
+        for i, r in _isolated(worker, units, pending, procs, init, initargs, hard_cap):
+            results[i] = r
+        pending = []
+    return results
+
+
+def _isolated(worker, units, idxs, procs, init, initargs, cap):
+    ctx = mp.get_context('fork')
+
+    def child(u, conn):
+        try:
+            if init:
+                init(*initargs)
+            conn.send(worker(u))
+        finally:
+            conn.close()
+    todo = list(idxs)
+    running = {}
+    out = []
+    while todo or running:
+        while todo and len(running) < procs:
+            i = todo.pop(0)
+            a, b = ctx.Pipe(duplex=False)
+            p_ = ctx.Process(target=child, args=(units[i], b))
+            p_.start()
+            b.close()
+            running[i] = (p_, a, time.time())
+        time.sleep(0.02)
+        for i in list(running):
+            p_, a, t0 = running[i]
+            r = None
+            done = False
+            if a.poll():
+                try:
+                    r = a.recv()
+                except Exception:
+                    r = None
+                done = True
+            elif not p_.is_alive():
+                done = True
+            elif time.time() - t0 > cap:
+                p_.kill()
+                done = True
+            if done:
+                p_.join(1)
+                a.close()
+                del running[i]
+                if r is None:
+                    r = UnitResult(units[i] if isinstance(units[i], (str, int, float)) else repr(units[i])[:200])
+                    r.inconclusive.append('the process running this unit died or stalled (exit code %s)' % p_.exitcode)
+                out.append((i, r))
+    return out
+
+
+def _run_chunk(worker, us):
+    return [worker(u) for u in us]
 
 
 class safe_worker(object):
